@@ -127,6 +127,7 @@ def run(ctx):
         ctx.broken.append('correspondence:find_missing_edges vs model/Missing.v')
     warnings_case(ctx)
     interleaved_blocks(ctx, ctx.n(30, 300))
+    removal_finding(ctx)
     gate(ctx)
 
 
@@ -282,6 +283,28 @@ def interleaved_blocks(ctx, n, extra=()):
             ctx.violation('spec', f"C10 fails on the implementation: missing-link records {records}, but the residue-graph edges without any "
                           f"atom-level edge between the two residues are {want} (multi-residue block, atoms listed in the order {case['atoms']})",
                           {'interleaved': case})
+
+
+def removal_finding(ctx):
+    """known finding F44: after a link removed an atom the residue graph is rebuilt from the atom-level edges, so residue
+    pairs that no bond joins are no longer edges of it and are not reported as missing"""
+    from polyply.src.graph_utils import find_missing_edges
+    text = '\n'.join(['[ moleculetype ]', 'AAA 1', '[ atoms ]', '1 P1 1 AAA A1 1 0.0 72', '2 P1 1 AAA H 2 0.0 1', '[ bonds ]', 'A1 H 1 0.3 1000',
+                      '[ moleculetype ]', 'BBB 1', '[ atoms ]', '1 P1 1 BBB B1 1 0.0 72',
+                      '[ moleculetype ]', 'CCC 1', '[ atoms ]', '1 P1 1 CCC C1 1 0.0 72',
+                      '[ link ]', 'resname "AAA|BBB"', '[ atoms ]', 'H {"replace": {"atomname": null}}', '[ bonds ]', 'A1 +B1 1 0.35 1250']) + '\n'
+    g = {'nres': 3, 'shape': 'path', 'resnames': ['AAA', 'BBB', 'CCC'], 'edges': [(0, 1), (1, 2)], 'r0': 1, 'keys': [0, 1, 2],
+         'order': [0, 1, 2], 'edge_order': [0, 1], 'flip': [False, False]}
+    out = ffgen.run_pipeline(text, g)
+    ctx.case(('finding', 'F44'), nontrivial=True)
+    if 'error' in out:
+        ctx.note(f"F44 probe: pipeline failed: {out['error'][:200]}")
+        return
+    records = sorted(tuple(sorted((int(r['idxA']), int(r['idxB'])))) for r in find_missing_edges(out['meta'], out['meta'].molecule))
+    if (2, 3) not in records:
+        ctx.violation('spec', f"residues 2 (BBB) and 3 (CCC) are connected in the requested residue graph and joined by no bond, but not reported as "
+                      f"missing (records {records}): the AAA-BBB link removed an atom and the residue graph was rebuilt from the atom-level edges",
+                      {'finding_probe': 'F44'}, finding='F44')
 
 
 def gate(ctx):
